@@ -27,7 +27,11 @@ ASSUMPTIONS = [
     "fingerprints are sha256 over the DER bytes the harness peer presents",
 ]
 
-HOSTS = ["h1", "h2", "h3"]
+HOSTS = ["h1", "h2", "h3", "0:0:0:0:0:0:0:1"]
+
+
+def _auth(h, p):
+    return (f"[{h}]" if ":" in h else h) + f":{p}"
 PORTS = [1965, 1966]
 KINDS = ["rsa-a", "ec-a", "ec-b", "ed-a", "hostile-bool", "hostile-v4"]
 PARSABLE = ["rsa-a", "ec-a", "ec-b", "ed-a"]
@@ -36,7 +40,7 @@ PARSABLE = ["rsa-a", "ec-a", "ec-b", "ed-a"]
 def op_st():
     hp = st.tuples(st.sampled_from(HOSTS), st.sampled_from(PORTS))
     return st.one_of(
-        st.tuples(st.sampled_from(["get", "get", "get-query", "upload", "delete", "get-upper"]), hp).map(lambda t: {"op": t[0], "hp": list(t[1])}),
+        st.tuples(st.sampled_from(["get", "get", "get-query", "upload", "delete", "get-upper", "get-ca"]), hp).map(lambda t: {"op": t[0], "hp": list(t[1])}),
         st.tuples(hp, hp).map(lambda t: {"op": "get-redirect", "hp": list(t[0]), "to": list(t[1])}),
         st.tuples(hp, st.sampled_from(KINDS)).map(lambda t: {"op": "get-redirect-switch", "hp": list(t[0]), "cert2": t[1]}),
         st.tuples(hp, st.sampled_from(PARSABLE), st.sampled_from(["get", "upload"])).map(
@@ -54,7 +58,7 @@ def op_st():
 
 def case_st():
     return st.fixed_dictionaries({
-        "initial": st.lists(st.sampled_from(KINDS), min_size=6, max_size=6),
+        "initial": st.lists(st.sampled_from(KINDS), min_size=len(HOSTS) * len(PORTS), max_size=len(HOSTS) * len(PORTS)),
         "ops": st.lists(op_st(), min_size=1, max_size=25),
     })
 
@@ -74,7 +78,7 @@ def enum_small(tier):
             # prune: histories without any fetch are uninteresting
             if not any(o["op"] in ("get", "upload") for o in seq):
                 continue
-            yield {"initial": ["ec-a"] * 6, "ops": list(seq)}
+            yield {"initial": ["ec-a"] * (len(HOSTS) * len(PORTS)), "ops": list(seq)}
 
 
 def _peers(net, state):
@@ -85,7 +89,7 @@ def _peers(net, state):
             if b"/redir/" in line:
                 tgt = line.split(b"/redir/", 1)[1].split(b"?")[0].split(b";")[0].decode()
                 th, tp = tgt.split("_")
-                return f"30 gemini://{th}:{tp}/final\r\n".encode()
+                return f"30 gemini://{_auth(th, tp)}/final\r\n".encode()
             return f"20 text/gemini\r\nBODY-{h}-{p}".encode()
 
         peer = memnet.ScriptedPeer(certs.get(state[(h, p)]), [("wait_request", 1.0), ("respond", respond), ("close",)])
@@ -101,7 +105,7 @@ def run_history(case: dict):
     dbpath = Path(d) / "tofu.db"
     state = {}
     for i, hp in enumerate(itertools.product(HOSTS, PORTS)):
-        state[hp] = case["initial"][i]
+        state[hp] = case["initial"][i % len(case["initial"])]
     model: dict[tuple, str] = {}
     stats = {"fetches": 0, "mismatch_fetches": 0, "unparsable_fetches": 0, "first_use": 0}
 
@@ -133,13 +137,20 @@ def run_history(case: dict):
         async def fetch(kind, hp, to=None, cl=None):
             cl = cl or client
             h, p = hp
-            url = f"gemini://{h}:{p}/x"
+            url = f"gemini://{_auth(h, p)}/x"
             if kind == "get-query":
                 url += "?secret=1"
             if kind == "get-upper":
-                url = f"gemini://{h.upper()}:{p}/x"
+                url = f"gemini://{_auth(h.upper(), p)}/x"
             if kind == "get-redirect":
-                url = f"gemini://{h}:{p}/redir/{to[0]}_{to[1]}"
+                url = f"gemini://{_auth(h, p)}/redir/{to[0]}_{to[1]}"
+            if kind == "get-ca":
+                # CA validation switched on in addition to TOFU: the peers' certificates are the trust anchors
+                os.environ["SSL_CERT_FILE"] = certs.ca_bundle()
+                try:
+                    cl = GeminiClient(timeout=10, tofu_db_path=dbpath, verify_ssl=True)
+                finally:
+                    os.environ.pop("SSL_CERT_FILE", None)
             n0 = len(loop.connection_log)
             try:
                 if kind == "upload":
@@ -222,7 +233,7 @@ def run_history(case: dict):
                                         why="changed-on-later-hop")
                         if op["cert2"] in PARSABLE and (res[0] != "changed" or res[1] != model[hp] or res[2] != c2.fingerprint):
                             return viol("wrong-error-for-changed-certificate", f"{where}: {res}")
-            elif o in ("get", "get-query", "get-upper", "upload", "delete", "get-redirect", "get-tofu-off"):
+            elif o in ("get", "get-query", "get-upper", "get-ca", "upload", "delete", "get-redirect", "get-tofu-off"):
                 hp = tuple(op["hp"])
                 hops = [hp] + ([tuple(op["to"])] if o == "get-redirect" else [])
                 if o == "get-tofu-off":
@@ -260,7 +271,7 @@ def run_history(case: dict):
                     if res[0] != "ok":
                         return viol("valid-certificate-refused", f"{where}: {res}; model={model}")
                     last = hops[-1]
-                    if o in ("get", "get-query", "get-upper", "get-redirect") and res[2] != f"BODY-{last[0]}-{last[1]}":
+                    if o in ("get", "get-query", "get-upper", "get-ca", "get-redirect") and res[2] != f"BODY-{last[0]}-{last[1]}":
                         return viol("wrong-content", f"{where}: {res}")
                     if contacted[: len(hops)] != hops:
                         return viol("unexpected-connections", f"{where}: {contacted}")
